@@ -228,6 +228,8 @@ class ValueGen:
 				length = self.rng.choice([0, 1, 2, 5, 16, 33, 40, 300 if width > 1 else 200])
 				return {'b': self.rng.bytes_(length).hex().upper()}
 			length = self.array_length()
+			if kind['sortKey'] and 0 < length < 3 and self.rng.random() < 0.6:
+				length = self.rng.choice([3, 4])  # an order check that only looks at the first pair needs three elements to be seen
 			if depth >= 2:
 				length = min(length, 2)
 			elements = [self.value(kind['elem'], depth + 1) for _ in range(length)]
